@@ -158,7 +158,22 @@ fn classify(stderr: &str) -> (String, String) {
             if rest.starts_with("aborting") {
                 continue;
             }
-            kind = rest.split(':').take(2).collect::<Vec<_>>().join(":").chars().take(90).collect();
+            // drop pointer tags / allocation ids so that one defect is one class
+            let mut k = String::new();
+            let mut skip = false;
+            for ch in rest.split(':').take(2).collect::<Vec<_>>().join(":").chars() {
+                match ch {
+                    '<' => {
+                        skip = true;
+                        k.push_str("<tag>");
+                    }
+                    '>' if skip => skip = false,
+                    _ if skip => {}
+                    c if c.is_ascii_digit() => {}
+                    c => k.push(c),
+                }
+            }
+            kind = k.chars().take(90).collect();
             for l2 in lines.by_ref() {
                 if let Some(p) = l2.trim_start().strip_prefix("--> ") {
                     // file:line (without the column)
